@@ -3,7 +3,8 @@
 From Coq Require Import List Arith Bool PeanoNat.
 From Icv Require Import Route.RtModel Route.RtProofs Route.RtObs Route.RtOracleProofs Route.RtStepLemmas Route.RtLoad
      Route.RtNet Route.RtFamilies Route.RtSched Route.RtNetSound Route.RtNetProofs
-     Route.RtInv Route.RtChain Route.RtChainSafe Route.RtChainComplete Route.RtTree Route.RtTreeSafe Route.RtTreeComplete Route.RtNetObs Route.RtNetObsProofs.
+     Route.RtInv Route.RtChain Route.RtChainSafe Route.RtChainComplete Route.RtTree Route.RtTreeSafe Route.RtTreeComplete Route.RtLine Route.RtLineSafe Route.RtLineComplete
+     Route.RtNetObs Route.RtNetObsProofs.
 Import ListNotations.
 
 (* ---- one relay step: ALL zone configurations, views, origins, iteration orders (unbounded) ---- *)
@@ -282,10 +283,53 @@ Proof.
   apply in_map_iff. exists [2; 2; 2; 2; 2; 2; 2]. split; [reflexivity|]. vm_compute. tauto.
 Qed.
 
+(* ================= UNBOUNDED: NON-GLOBAL target zone on zone trees of ARBITRARY depth and width =================
+   The chain theorems generalised to every tree (rt_tree_wf c as above; side branches, any number of children) and
+   every non-global target zone: entitled zones = the target's line (the target zone and its ancestors); originators on
+   the line, below it or in a side branch.  Together with C11_global_*_unbounded: EVERY well-formed zone forest, EVERY
+   target. *)
+Theorem C11_line_inv_step : forall c links T nord,
+  rt_tree_wf c -> rt_global c T = false -> rt_nord_ok c nord ->
+  forall st np st', rt_line_inv c links T st -> rt_sched_step rt_msg (rt_effect c links T nord) st np st' ->
+    rt_fresh np (snd st) = true /\ rt_line_inv c links T st' /\ rt_line_measure c links T st' < rt_line_measure c links T st.
+Proof. exact rt_line_inv_step. Qed.
+Print Assumptions C11_line_inv_step.
+
+Theorem C11_tree_finite_once_unbounded : forall c links T s lz nord,
+  rt_tree_wf c -> rt_global c T = false -> rt_zone_of c s = Some lz -> rt_nord_ok c nord ->
+  forall k st', rt_sched_run rt_msg (rt_effect c links T nord) (rt_init c links T nord s lz) k st' ->
+    k < length (flat_map rt_zeps c) /\ k < rt_fuel c /\
+    (forall np st'', rt_sched_step rt_msg (rt_effect c links T nord) st' np st'' -> rt_fresh np (snd st') = true).
+Proof. exact rt_line_finite_once_run. Qed.
+Print Assumptions C11_tree_finite_once_unbounded.
+
+Theorem C11_tree_complete_unbounded : forall c links T nord s lz,
+  rt_tree_wf c -> rt_global c T = false -> rt_nord_ok c nord -> rt_zone_of c s = Some lz ->
+  forall k st', rt_sched_run rt_msg (rt_effect c links T nord) (rt_init c links T nord s lz) k st' ->
+    fst st' = [] -> rt_final_complete c links T lz (snd st') = true.
+Proof. exact rt_line_complete. Qed.
+Print Assumptions C11_tree_complete_unbounded.
+
+(* non-vacuity: the full binary tree of depth 3 (two endpoints everywhere), target = a leaf zone (zone 3, line 3-1-0):
+   from the non-master endpoint of the root all six endpoints of the line process once; an event originating in the
+   side branch (zone 2) or below a sibling (zone 4) is discarded at the first hop *)
+Example C11_tree_unbounded_nonvacuous :
+  let c := rt_mk_cfg (rt_tree_parents [2; 2]) [2; 2; 2; 2; 2; 2; 2] ++ [rt_gzone] in
+  let links := rt_related_pairs c in
+  rt_tree_wf c /\ rt_global c 3 = false /\ rt_entitled_zones c 3 0 = [3; 1; 0] /\
+  rt_premise c links (rt_entitled_zones c 3 0) = true /\
+  rt_run_ok c links 3 2 (fun p => (length p =? 6) && forallb (fun e => rt_mem e p) [1; 2; 3; 4; 7; 8]) = true /\
+  rt_run_ok c links 3 5 (fun p => length p =? 1) = true /\
+  rt_run_ok c links 3 9 (fun p => length p =? 1) = true.
+Proof.
+  split; [apply rt_tree_wf_b_spec; vm_compute; reflexivity|].
+  vm_compute. repeat split.
+Qed.
+
 (* the executable NETWORK-level check run over complete multi-hop runs of the real code (op rt_net: number of
    deliveries, endpoints that processed) accepts every complete run of the model's network relation - any schedule, any
-   per-node iteration order, any link set, any originator - on the configuration classes of the unbounded theorems
-   (outside them, rt_net_pre_b, it claims nothing): nobody twice, fewer deliveries than endpoints, complete under the
+   per-node iteration order, any link set, any originator - on every well-formed zone forest and every target
+   (rt_net_pre_b = rt_tree_wf_b and target in range; outside it claims nothing): nobody twice, fewer deliveries than endpoints, complete under the
    premise *)
 Theorem C11_net_oracle_accepts_model : forall c links target s lz nord k st',
   rt_zone_of c s = Some lz -> rt_nord_ok c nord ->
